@@ -228,6 +228,7 @@ def dump(repo: str) -> dict:
     out["events_tables"] = _events_tables()
     out["pipeline"] = _pipeline()
     out["frame_kinds"] = _frame_kinds(const, frames)
+    out["param_probes"] = _param_probes(parameter, ecomax_parameters, mixer_parameters, thermostat_parameters, schedules, dev_ecomax)
     return out
 
 
@@ -490,6 +491,7 @@ def emit_lean(d: dict) -> dict[str, str]:
     files["EventsTables.lean"] = emit_events_tables(d, hdr)
     files["Pipeline.lean"] = _emit_pipeline(d["pipeline"], hdr)
     files["FrameKinds.lean"] = emit_frame_kinds(d, hdr)
+    files["ParamProbe.lean"] = emit_param_probes(d, hdr)
     return files
 
 
@@ -1121,6 +1123,226 @@ def emit_frame_kinds(d: dict, hdr: str) -> str:
     body += "def frameKinds : List FrameKind := " + lean_list(
         [f"⟨{lean_str(n)}, {c}, {lean_str(mo)}, {lean_str(cl)}, {b(hc)}, {b(hd)}, {b(tc)}, {b(td)}⟩"
          for n, c, mo, cl, hc, hd, tc, td in d["frame_kinds"]], 1) + "\n\n"
+    body += "end PlumVerif.Gen\n"
+    return body
+
+
+def _param_probes(parameter, ecomax_parameters, mixer_parameters, thermostat_parameters, schedules, dev_ecomax):
+    """C06 / C08 / C17: the front of `set()` and the confirmation rule of `update()` of every parameter CLASS as data.
+    The real classes are probed BEHAVIOURALLY on a small complete grid (no source inspection): a probe object is an
+    instance of a subclass that only replaces the request builders (`create_request` -> a marker carrying the value held
+    at that moment) — `set`, the subclass's display->raw conversion, `_normalize_parameter_value`, the range check and
+    `update` are the class's own.
+      validate : class x description (multiplier, offset, precision) x (value, min, max) incl. min = max, min > max, value outside
+                 its own bounds x requested values (ints around both bounds, the held value, floats, bools, 'on'/'off')
+                 -> outcome 0 no-op (True, nothing queued, nothing changed) | 1 ValueError (nothing queued, nothing changed)
+                    | 2 accepted (one set request carrying `raw`, held value = raw, bounds unchanged) | 3 TypeError (inert) | 9 anything else
+      rawof    : the same call on the bounds (-10^9, 10^9): the raw value every requested value is normalised to
+      confirm  : (pending by a call for `requested` or not) x reported triple -> pending afterwards, triple held afterwards
+    requested value = [kind, a, b, s]: 0 int a | 1 float a/b | 2 bool a | 3 str s"""
+    import asyncio
+
+    from pyplumio.devices.mixer import Mixer
+    from pyplumio.devices.thermostat import Thermostat
+    from pyplumio.structures.network_info import NetworkInfo
+
+    PV = parameter.ParameterValues
+
+    def probe_class(cls):
+        async def create_request(self):
+            return ("set", int(self.values.value))
+
+        async def create_refresh_request(self):
+            return ("refresh",)
+
+        return type("Probe" + cls.__name__, (cls,), {
+            "__slots__": (), "create_request": create_request, "create_refresh_request": create_refresh_request,
+            "is_tracking_changes": property(lambda self: True)})
+
+    def enc(v):
+        if isinstance(v, bool):
+            return [2, int(v), 1, ""]
+        if isinstance(v, int):
+            return [0, v, 1, ""]
+        if isinstance(v, float):
+            n, d_ = v.as_integer_ratio()
+            return [1, n, d_, ""]
+        return [3, 0, 1, v]
+
+    def triple(p):
+        return [p.values.value, p.values.min_value, p.values.max_value]
+
+    async def one_set(make, v):
+        p, queue = make()
+        before = triple(p)
+        kind, r = None, None
+        try:
+            r = await p.set(v, retries=1, timeout=0)
+        except ValueError:
+            kind = 1
+        except TypeError:
+            kind = 3
+        except Exception:  # noqa: BLE001
+            kind = 9
+        q = []
+        while not queue.empty():
+            q.append(queue.get_nowait())
+        after = triple(p)
+        if kind in (1, 3):
+            return (kind, 0) if (not q and after == before and not p.pending_update) else (9, 0)
+        if kind == 9:
+            return (9, 0)
+        if r is True and not q and after == before and not p.pending_update:
+            return (0, 0)
+        if r is False and q == [("set", after[0])] and after[1:] == before[1:] and p.pending_update:
+            return (2, after[0])
+        return (9, 0)
+
+    REQS = ([-1, 0, 1, 2, 3, 4, 5, 6, 7, 8, 9, 10, 23, 31] + [-1.5, -1.0, -0.5, 0.3, 0.5, 0.999, 1.5, 2.0, 2.5, 4.999, 5.0, 8.0, 8.5, 9.0]
+            + [True, False, "on", "off"])
+    TRIPLES = [(5, 2, 8), (5, 5, 5), (5, 8, 2), (9, 2, 8), (0, 0, 1), (1, 0, 1), (23, 20, 30)]
+    SCALED_TRIPLES = [(5, 2, 8), (5, 8, 2), (23, 20, 30)]
+    BIG = (123456789, -10 ** 9, 10 ** 9)
+
+    async def main():
+        eco = dev_ecomax.EcoMAX(asyncio.Queue(), NetworkInfo())
+        mixer = Mixer(asyncio.Queue(), eco, 1)
+        thermostat = Thermostat(asyncio.Queue(), eco, 1)
+        N, S = parameter.NumberDescription, parameter.SwitchDescription
+        E, M, T = ecomax_parameters, mixer_parameters, thermostat_parameters
+        # (class, device, [(description, (multiplier, offset, precision) as the model is to read them)])
+        classes = [
+            (parameter.Number, eco, [(N(name="probe"), (1.0, 0, 0))]),
+            (parameter.Switch, eco, [(S(name="probe"), (1.0, 0, 0))]),
+            (E.EcomaxNumber, eco, [(E.EcomaxNumberDescription(name="probe"), None),
+                                   (E.EcomaxNumberDescription(name="probe", multiplier=0.5, offset=2, precision=6), None),
+                                   (E.EcomaxNumberDescription(name="probe", multiplier=0.1, offset=20, precision=1), None)]),
+            (E.EcomaxSwitch, eco, [(E.EcomaxSwitchDescription(name="probe"), (1.0, 0, 0))]),
+            (M.MixerNumber, mixer, [(M.MixerNumberDescription(name="probe"), None),
+                                    (M.MixerNumberDescription(name="probe", multiplier=0.5, offset=2, precision=6), None),
+                                    (M.MixerNumberDescription(name="probe", multiplier=0.1, offset=20, precision=1), None)]),
+            (M.MixerSwitch, mixer, [(M.MixerSwitchDescription(name="probe"), (1.0, 0, 0))]),
+            (T.ThermostatNumber, thermostat, [(T.ThermostatNumberDescription(name="probe"), None),
+                                              (T.ThermostatNumberDescription(name="probe", multiplier=0.5, precision=6), None),
+                                              (T.ThermostatNumberDescription(name="probe", multiplier=0.1, precision=1, size=2), None)]),
+            (T.ThermostatSwitch, thermostat, [(T.ThermostatSwitchDescription(name="probe"), (1.0, 0, 0))]),
+            (schedules.ScheduleNumber, eco, [(schedules.ScheduleNumberDescription(name="probe"), (1.0, 0, 0))]),
+            (schedules.ScheduleSwitch, eco, [(schedules.ScheduleSwitchDescription(name="probe"), (1.0, 0, 0))]),
+        ]
+        validate, rawof, confirm = [], [], []
+        for cls, dev, descs in classes:
+            pc = probe_class(cls)
+            for desc, conv in descs:
+                if conv is None:
+                    conv = (desc.multiplier, getattr(desc, "offset", 0), desc.precision)
+                mn, md = float(conv[0]).as_integer_ratio()
+                head = [cls.__name__, mn, md, int(conv[1]), int(conv[2])]
+
+                def maker(t, desc=desc, pc=pc, dev=dev):
+                    def make():
+                        while not dev.queue.empty():
+                            dev.queue.get_nowait()
+                        return pc(dev, desc, PV(*t)), dev.queue
+                    return make
+
+                for t in (TRIPLES if desc is descs[0][0] else SCALED_TRIPLES):     # the full grid on the unit description
+                    for v in REQS:
+                        k, raw = await one_set(maker(t), v)
+                        validate.append(head + list(t) + enc(v) + [k, raw])
+                for v in REQS:
+                    k, raw = await one_set(maker(BIG), v)
+                    rawof.append(head + list(BIG) + enc(v) + [k, raw])
+            # confirmation rule (unit description): not pending / pending by an accepted call for `requested`
+            desc = descs[0][0]
+            for held in ((10, 0, 100), (0, 0, 1)):
+                for requested in (None, 1 if (held[2] <= 1 or issubclass(cls, parameter.Switch)) else 42):
+                    for rv in sorted({held[0], 42, 77, 1, 0}):
+                        for bounds in ((held[1], held[2]), (0, 20), (50, 40)):
+                            p = pc(dev, desc, PV(*held))
+                            task = None
+                            if requested is not None:
+                                disp = requested
+                                if issubclass(cls, parameter.Switch):
+                                    disp = bool(requested)
+                                task = asyncio.ensure_future(p.set(disp, retries=2, timeout=1000))
+                                for _ in range(5):
+                                    await asyncio.sleep(0)
+                            pend_before, prev = bool(p.pending_update), held[0]
+                            now = triple(p)
+                            p.update(PV(rv, bounds[0], bounds[1]))
+                            row = [cls.__name__] + list(held) + [int(requested is not None), requested or 0, int(pend_before)] + now \
+                                + [rv, bounds[0], bounds[1], int(bool(p.pending_update))] + triple(p)
+                            if task is not None:
+                                task.cancel()
+                                try:
+                                    await task
+                                except BaseException:  # noqa: BLE001
+                                    pass
+                            while not dev.queue.empty():
+                                dev.queue.get_nowait()
+                            confirm.append(row)
+                            del prev
+        for dev in (eco, mixer, thermostat):
+            dev.cancel_tasks()
+        return {"validate": validate, "rawof": rawof, "confirm": confirm}
+
+    import logging
+    logging.disable(logging.CRITICAL)      # every accepted probe call ends with the library's "Timed out ..." error record
+    try:
+        return asyncio.run(main())
+    finally:
+        logging.disable(logging.NOTSET)
+
+
+def emit_param_probes(d: dict, hdr: str) -> str:
+    pr = d["param_probes"]
+    body = hdr + "namespace PlumVerif.Gen\n\n"
+    body += (
+        "/-- a requested Python value: kind 0 int a | 1 float a/b | 2 bool (a = 1) | 3 str s -/\n"
+        "structure ProbeVal where\n  kind : Nat\n  a : Int\n  b : Nat\n  s : String\nderiving Repr, DecidableEq, Inhabited\n\n"
+        "/-- one probed `set()` call of a real parameter class (tools/gen_tables.py `_param_probes`): description numbers, the triple held,\n"
+        "    the requested value, the outcome 0 no-op | 1 ValueError | 2 accepted, one request carrying `raw` | 3 TypeError | 9 anything else -/\n"
+        "structure SetProbe where\n  cls : Nat\n  multNum : Nat\n  multDen : Nat\n  offset : Nat\n  precision : Nat\n"
+        "  value : Int\n  min : Int\n  max : Int\n  req : ProbeVal\n  outcome : Nat\n  raw : Int\nderiving Repr, DecidableEq, Inhabited\n\n"
+        "/-- one probed `update()` of a real parameter class: triple first held, whether a call for `requested` was pending (`pendingBefore`,\n"
+        "    with the triple held at that moment), the reported triple, and what is pending / held afterwards -/\n"
+        "structure ConfirmProbe where\n  cls : Nat\n  v0 : Int\n  lo0 : Int\n  hi0 : Int\n  called : Bool\n  requested : Int\n  pendingBefore : Bool\n"
+        "  v1 : Int\n  lo1 : Int\n  hi1 : Int\n  rv : Int\n  rlo : Int\n  rhi : Int\n  pendingAfter : Bool\n  v2 : Int\n  lo2 : Int\n  hi2 : Int\n"
+        "deriving Repr, DecidableEq, Inhabited\n\n"
+    )
+
+    names = []
+    for r in pr["validate"] + pr["rawof"] + pr["confirm"]:
+        if r[0] not in names:
+            names.append(r[0])
+    body += ("/-- the probed classes; the rows carry the position in this list (string comparison is slow in the kernel) -/\n"
+             "def probeClasses : List String := " + lean_list([lean_str(n) for n in names], 5) + "\n\n")
+
+    def i(x):
+        return f"({x})" if x < 0 else str(x)
+
+    def b(x):
+        return "true" if x else "false"
+
+    def setrow(r):
+        c, mn, md, off, prec, v, lo, hi, k, a, bb, s_, out, raw = r
+        return f"⟨{names.index(c)}, {mn}, {md}, {off}, {prec}, {i(v)}, {i(lo)}, {i(hi)}, ⟨{k}, {i(a)}, {bb}, {lean_str(s_)}⟩, {out}, {i(raw)}⟩"
+
+    def crow(r):
+        c, v0, lo0, hi0, called, req, pb, v1, lo1, hi1, rv, rlo, rhi, pa, v2, lo2, hi2 = r
+        return (f"⟨{names.index(c)}, {i(v0)}, {i(lo0)}, {i(hi0)}, {b(called)}, {i(req)}, {b(pb)}, {i(v1)}, {i(lo1)}, {i(hi1)}, "
+                f"{i(rv)}, {i(rlo)}, {i(rhi)}, {b(pa)}, {i(v2)}, {i(lo2)}, {i(hi2)}⟩")
+
+    # the validate table is cut into chunks so that each kernel evaluation stays short
+    rows = pr["validate"]
+    CH = 400
+    chunks = [rows[k:k + CH] for k in range(0, len(rows), CH)]
+    for n, ch in enumerate(chunks):
+        body += f"def validateProbe{n} : List SetProbe := " + lean_list([setrow(r) for r in ch], 1) + "\n\n"
+    body += "def validateProbeChunks : List (List SetProbe) := [" + ", ".join(f"validateProbe{n}" for n in range(len(chunks))) + "]\n\n"
+    body += f"def validateProbeRows : Nat := {len(rows)}\n\n"
+    body += "def rawOfProbe : List SetProbe := " + lean_list([setrow(r) for r in pr["rawof"]], 1) + "\n\n"
+    body += "def confirmProbe : List ConfirmProbe := " + lean_list([crow(r) for r in pr["confirm"]], 1) + "\n\n"
     body += "end PlumVerif.Gen\n"
     return body
 
